@@ -27,7 +27,6 @@ import (
 	"strconv"
 	"strings"
 	"testing"
-	"testing/synctest"
 
 	"github.com/bfenetworks/bfe/verifkit/vk"
 )
@@ -264,16 +263,6 @@ func c26judge(q c26req, raw []byte) (vios []c26vio, notes []string) {
 
 // ---- execution ---------------------------------------------------------------------------------------
 
-// c26releaseWaitGroup must run inside the bubble while conn.serve is still running. conn.serve
-// does srv.connWaitGroup.Add(1) inside the bubble, which ties the server's WaitGroup to that
-// bubble; go1.26 only unties it when the counter returns to zero while somebody waits. Without a
-// waiter the next execution (a new bubble, same server) dies with "WaitGroup.Add called from
-// multiple synctest bubbles".
-func c26releaseWaitGroup(srv *BfeServer) {
-	go srv.connWaitGroup.Wait()
-	synctest.Wait()
-}
-
 type c26ctx struct {
 	r      *vk.Run
 	t      *testing.T
@@ -304,12 +293,17 @@ func (c *c26ctx) run(family, id string, q c26req, mode string) {
 	if mode == "retry" {
 		srv = c.srvRt
 		answers = []h1answer{{ErrKind: "connect"}}
+		// every execution lets one backend fail once; without a reset the failure counter would
+		// reach the health-check threshold after many executions and bfe would start a checker
+		// goroutine inside the bubble (harness artefact, not part of the property)
+		for _, b := range srv.balTable.VerifBackends() {
+			b.ResetFailNum()
+		}
 	}
 	var atts []h1attempt
 	var clientOut []byte
 	panicked, pv := vk.Guard(func() {
 		h1run(c.t, srv, answers, func(e *h1env) {
-			c26releaseWaitGroup(srv)
 			skip := 0
 			if mode == "second" {
 				e.send("GET /first HTTP/1.1\r\nHost: example.org\r\n\r\n")
